@@ -235,15 +235,65 @@ def rand_cls(rng, depth, ids_used=None):
     return ['cls', rand_id(rng), [rand_ty(rng, depth - 1) for _ in range(n)]]
 
 
-def rand_key_ty(rng):
-    return rng.choice([['int'], ['bytes'], ['bytes'], ['bstr']])
+def rand_key_cls(rng, depth):
+    """a class whose instances can serve as dict keys (Map Credential Integer, Dict[Slot, ..]): every field is int /
+    bytes / ByteString, such a class again, or a Union of such classes -- the field values are then all hashable.
+    Datum / IndefiniteList / List / Dict fields are left out: their values are unhashable (list, dict, RawPlutusData),
+    and a Datum field holding an int or bytes comes back from from_dict as RawPlutusData (see ASSUMPTIONS of c18.py)."""
+    fts = []
+    for _ in range(rng.choice([0, 1, 1, 2, 2, 3])):
+        r = rng.random()
+        if depth <= 0 or r < 0.6:
+            fts.append(rng.choice([['int'], ['bytes'], ['bstr'], ['int'], ['bytes']]))
+        elif r < 0.85:
+            fts.append(rand_key_cls(rng, depth - 1))
+        else:
+            fts.append(rand_key_union(rng, depth - 1))
+    return ['cls', rand_id(rng), fts]
+
+
+def rand_key_union(rng, depth):
+    alts, ids = [], set()
+    for _ in range(rng.choice([2, 2, 3])):
+        c = rand_key_cls(rng, depth)
+        if c[1] in ids:
+            continue
+        ids.add(c[1]); alts.append(c)
+    if len(alts) < 2:
+        return alts[0]                 # typing.Union[X] IS X: a one-alternative Union does not exist in Python
+    return ['union', alts]
+
+
+def rand_key_ty(rng, depth=2):
+    """key type of a Dict field: int / bytes / ByteString, a key class, or a Union of key classes"""
+    r = rng.random()
+    if r < 0.5:
+        return rng.choice([['int'], ['bytes'], ['bytes'], ['bstr']])
+    if r < 0.9:
+        return rand_key_cls(rng, rng.choice([0, 1, 1, depth]))
+    return rand_key_union(rng, 1)
+
+
+def has_objkey(v, fields_only=True):
+    """does the value hold a dict keyed by a class instance (with at least one field when fields_only)"""
+    k = v[0]
+    if k in ('l', 'il'):
+        return any(has_objkey(x, fields_only) for x in v[1])
+    if k == 'd':
+        return any((a[0] == 'o' and (bool(a[3]) or not fields_only)) or has_objkey(a, fields_only) or has_objkey(b, fields_only)
+                   for a, b in v[1])
+    if k == 'o':
+        return any(has_objkey(x, fields_only) for x in v[3])
+    if k in ('t', 'r'):
+        return has_objkey(v[2] if k == 't' else v[1], fields_only)
+    return False
 
 
 def rand_ty(rng, depth):
     r = rng.random()
     if depth <= 0 or r < 0.34:
         return rng.choice([['int'], ['bytes'], ['bstr'], ['int'], ['bytes'], ['ilist'], ['datum']])
-    if r < 0.52:
+    if r < 0.48:
         return ['list', rand_ty(rng, depth - 1)]
     if r < 0.66:
         return ['dict', rand_key_ty(rng), rand_ty(rng, depth - 1)]
@@ -255,6 +305,8 @@ def rand_ty(rng, depth):
         if c[1] in ids:
             continue
         ids.add(c[1]); alts.append(c)
+    if len(alts) < 2:
+        return alts[0]                 # typing.Union[X] IS X: a one-alternative Union does not exist in Python
     return ['union', alts]
 
 
@@ -282,7 +334,7 @@ def rand_val(rng, t, odd=0.05):
         kvs, seen = [], set()
         for _ in range(rng.choice([0, 1, 2, 3])):
             key = rand_val(rng, t[1], 0)
-            kk = repr(key[1])
+            kk = repr(abs_tree(key))                       # keys differ in content
             if kk in seen:
                 continue
             seen.add(kk)
@@ -436,7 +488,7 @@ RAW_ROUTES = [(0, 'canon', o_bytes), (1, 'py', o_bytes), (2, 'dec', o_bytes), (3
               (8, 'dec_hash2_ok', o_flag), (4, 'todict', o_json), (5, 'json_rt', o_bytes), (6, 'json_rt2', o_bytes),
               (7, 'fromdict', o_bytes)]
 TYPED_ROUTES = [(0, 'enc', o_bytes), (1, 'hash_ok', o_flag), (2, 'rt_self', o_bytes), (3, 'rt_ref', o_bytes),
-                (4, 'todict', o_json), (5, 'dict_rt', o_bytes), (6, 'json_rt', o_bytes)]
+                (4, 'todict', o_json), (5, 'dict_rt', o_bytes), (6, 'json_rt', o_bytes), (7, 'redeemer_ok', o_flag)]
 ROUTE_NAMES = {'raw': {n: s for n, s, _ in RAW_ROUTES}, 'typed': {n: s for n, s, _ in TYPED_ROUTES}}
 ROUTE_NAMES['typed'][9] = 'construct'
 ROUTE_NAMES['raw'][99] = ROUTE_NAMES['typed'][99] = 'harness-reference-encoder'
